@@ -169,16 +169,24 @@ def evaluate(plan, o, prefix="C13"):
                           (a["idx"], a["state"])))
             break
     # ---- S3: back-off ------------------------------------------------------------------------------
+    # A run of consecutive failed attempts is a *fresh* recovery episode (growth is judged from its first
+    # delay) when it starts the session or follows a CONNECTED notification; a connection the gateway
+    # accepted but the client abandoned inside its own connect step continues the previous episode.
     delays = []
     prev = None
+    fresh = True
     for a in o.attempts:
         if prev is not None and prev["result"] in ("refused", "failed"):
             delays.append((a["start"] - prev["end"], a["ev"]))
         else:
-            _check_backoff(delays, v, prefix, sfx)
+            _check_backoff(delays, v, prefix, sfx, fresh)
             delays = []
+            if prev is None:
+                fresh = True
+            else:
+                fresh = any(s[3] == "CONNECTED" and prev["ev"] < s[0] < a["ev"] for s in status)
         prev = a
-    _check_backoff(delays, v, prefix, sfx)
+    _check_backoff(delays, v, prefix, sfx, fresh)
     connect_called = any(op["op"] == "connect" for op in o.ops)
     if o.close_started is None and connect_called:
         # ---- S4: bounded liveness once faults stop -------------------------------------------------
@@ -216,7 +224,18 @@ def evaluate(plan, o, prefix="C13"):
         all_sent = []
         for c in conns:
             all_sent.extend(_complete_tags(c))
-        got_ev = [(traffic.tag_of(r[3]), r[0]) for r in o.recv]
+        # the deliberately truncated packet of the *_mid faults: a text client may legitimately decode the
+        # shortened line it received before the end of stream, so such a message is not judged
+        partial = [bytes.fromhex(sg[1]).decode("latin-1") for c in conns for sg in (c["entry"].get("stream") or [])
+                   if sg[0] == "partial"]
+        def from_partial(m):
+            raw = m.raw_can_data
+            if isinstance(raw, str):
+                return any(p.startswith(raw) for p in partial)
+            if kind == "actisense" and isinstance(raw, (bytes, bytearray)):     # raw = the payload bytes of the line
+                return any(p.split()[-1].upper().startswith(bytes(raw).hex().upper()) for p in partial if p.split())
+            return False
+        got_ev = [(traffic.tag_of(r[3]), r[0]) for r in o.recv if not from_partial(r[3])]
         got = [g for g, _ in got_ev if g is not None]
         if not _is_subsequence(got, all_sent):
             v.append(viol(prefix + ".S4" + sfx, got_ev[0][1] if got_ev else end_ev,
@@ -255,7 +274,7 @@ def _slack(plan):
     return sum(((cb.get("status") or {}).get("delay") or {}).values()) + sum(((cb.get("recv") or {}).get("delay") or {}).values())
 
 
-def _check_backoff(delays, v, prefix, sfx):
+def _check_backoff(delays, v, prefix, sfx, fresh=True):
     if not delays:
         return
     ds = [d for d, _ in delays]
@@ -266,7 +285,7 @@ def _check_backoff(delays, v, prefix, sfx):
         if d > 60.0:
             v.append(viol(prefix + ".S3" + sfx, ev, "retry delay %.1f s exceeds the 60 s cap (delays: %s)" % (d, _fmt(ds))))
             return
-    if len(ds) >= 5 and ds[4] < 2 * ds[0]:
+    if fresh and len(ds) >= 5 and ds[4] < 2 * ds[0]:
         v.append(viol(prefix + ".S3" + sfx, delays[4][1], "retry delay does not grow: %s" % _fmt(ds)))
 
 
